@@ -56,6 +56,7 @@ GEOMS = {
     "Cfirstun": ("Curve", 4, [[1, 2], [2, 3]]),
     "Cunord": ("Curve", 4, [[2, 3], [0, 1]]),
     "Cstar": ("Curve", 4, [[0, 1], [0, 2], [0, 3]]),
+    "Cloop": ("Curve", 4, [[0, 1], [1, 2], [2, 3], [3, 0]]),  # closed: as many cells as vertices
     "Cmidun": ("Curve", 4, [[0, 1], [0, 3]]),  # vertex 2 (middle) used by no cell
     "Cauto": ("Curve", 4, "auto"),  # no cells given: the library derives the chain
     "Cparts": ("Curve", 4, "parts"),  # cells derived from parts [0, 0, 1, 1]
@@ -529,6 +530,9 @@ def judge(before, op, expect, after_model, feats, raised, obs, stage):
     if raised is not None:
         if expect == "ok" and op[0] in ("sv", "ad") and op[2] == "short":
             out.append(("shorter-padded", f"{pre}{feats[-2]} array refused", {"raised": raised, "op": op}))
+        if expect == "ok" and op[0] in ("cp", "cc", "dc") and stage == "live":
+            # a masked copy with a well-formed boolean mask of the right length is not a legitimate refusal
+            out.append(("masked-copy-yields-selection", f"{head} raised {raised}", {"op": op, "input": geo_feats}))
         # "an operation that fails leaves geometry and data mutually consistent"
         detail = [dict(d, clause=c, what=w) for c, w, d in inv if "unreadable" not in w]
         # a cell that is still there must connect coordinates it connected before
